@@ -634,7 +634,8 @@ def shrink_candidates(cfg):
 
 def check_assemble_target(ctx, rec):
     """C01 consequence clause at the command line: the model `mchap assemble` fits is the documented posterior of the inputs it
-    was given - ploidy and inbreeding of that sample, allele counts of the locus' SNVs, the requested ladder ending at 1."""
+    was given - ploidy and inbreeding of that sample, allele counts of the locus' SNVs, the requested ladder ending at 1
+    (steps, chains and seed do not define the target and are not judged)."""
     cfg = ctx.config
     mdl = rec["model"]
     where = "locus %s, sample %s" % (rec["locus"], rec["sample"])
@@ -652,9 +653,6 @@ def check_assemble_target(ctx, rec):
     want_l = sorted(set([float(t) for t in (cfg["temperatures"] or [])] + [1.0]))
     if ladder != want_l:
         raise Violation("cli_target", "mchap assemble runs the temperature ladder %r; requested %r (%s)" % (ladder, want_l, where), step=0)
-    if int(mdl.steps) != cfg["mcmc_steps"] or int(mdl.chains) != cfg["mcmc_chains"] or mdl.random_seed != cfg["mcmc_seed"]:
-        raise Violation("cli_target", "mchap assemble runs steps/chains/seed %r/%r/%r; requested %r/%r/%r (%s)"
-                        % (mdl.steps, mdl.chains, mdl.random_seed, cfg["mcmc_steps"], cfg["mcmc_chains"], cfg["mcmc_seed"], where), step=0)
     ctx.counters.inc("cli_models_checked")
     ctx.key("cli-target", rec["ploidy"], tuple(want_n), round(rec["inbreeding"], 3), tuple(ladder))
 
@@ -860,8 +858,6 @@ def run_pedigree_cli(ctx):
             tot = sum(got_prior.values())
             if set(got_prior) != set(want_prior) or any(abs(got_prior[a] / tot - want_prior[a]) > 1e-9 for a in want_prior):
                 raise Violation("cli_target", "prior over the record's alleles handed to the pedigree sampler is %r; the input defines %r (%s)" % (got_prior, want_prior, where), step=0)
-            if int(mdl.steps) != cfg["mcmc_steps"] or int(mdl.chains) != cfg["mcmc_chains"] or mdl.random_seed != cfg["mcmc_seed"]:
-                raise Violation("cli_target", "call-pedigree runs steps/chains/seed %r/%r/%r (%s)" % (mdl.steps, mdl.chains, mdl.random_seed, where), step=0)
             ctx.counters.inc("cli_pedigrees_checked")
             if cfg["dummy_parent"]:
                 ctx.counters.inc("cli_unsequenced_member")
